@@ -43,6 +43,8 @@ Wr(e) == CASE e = "pa" -> <<"a", "\n">>            \* print('a')
            [] e = "pnn" -> <<"\n", "\n">>           \* print('\n')
            [] e = "in" -> <<"p", "\n">>             \* input('p') echoes the prompt and a newline
            [] e = "st" -> <<>>                      \* sys.settrace(None): student code drops the trace function
+           [] e = "cb" -> <<>>                      \* hook(): an instructor-supplied callable that calls back into the sandbox
+                                                    \* (call('cbf')) while this execution is still running: a NESTED execution
            [] e = "im" -> <<>>                      \* import helper_mod: a second student file, executed by Sandbox._import
                                                     \* inside the running execution (a nested entry point); it prints nothing
            [] OTHER -> <<>>
@@ -88,6 +90,10 @@ CaptureFails(m) == \/ m = "internalFault"
 \* returns the post-state fields as a record
 \* a program that does not compile executes none of its effects
 EffsOf(prog) == IF prog.mode \in {"syntax", "nul"} THEN <<>> ELSE prog.effs
+\* nested executions started by the program (each is a complete _execute of its own: own context, own patches on top
+\* of the outer ones, removed again before the outer execution continues)
+NCb(prog) == Cardinality({j \in 1..Len(EffsOf(prog)) : EffsOf(prog)[j] = "cb"})
+EmptyCtx == [out |-> <<>>, inputs |-> <<>>]
 \* inq: the input queue the execution starts from (the sandbox's, or the one handed to run/call through inputs=)
 Exec(prog, kindOfEntry, inq) ==
     LET \* clear_exception; context appended; _start_mocking
@@ -96,7 +102,10 @@ Exec(prog, kindOfEntry, inq) ==
         k == Kind(prog.mode)
         \* which handler runs?  "base" has a handler that stops mocking and re-raises
         handled == k \in {"normal", "exception", "sysexit"} \/ "no_base_handler" \notin Flags
-        unmocked == handled
+        \* flag shared_sleep_patcher: one module-level patcher object for time.sleep; it is not re-entrant, so the outer
+        \* execution's clean-up fails half-way once a nested execution has used it
+        brokenNest == "shared_sleep_patcher" \in Flags /\ NCb(prog) > 0
+        unmocked == handled /\ ~brokenNest
         \* append_output(share): raw += share; context.output = share; line view
         share == r.w
         raw1 == IF unmocked THEN raw \o share ELSE raw
@@ -124,10 +133,12 @@ Exec(prog, kindOfEntry, inq) ==
          pMods |-> IF unmocked THEN "real" ELSE "patched",
          patches |-> IF unmocked THEN patches ELSE Append(patches, n),
          stdouts |-> IF unmocked THEN stdouts ELSE Append(stdouts, n),
-         raw |-> raw1, lines |-> lines1, ctxs |-> Append(ctxs, ctx1), inputs |-> r.queue,
+         raw |-> raw1, lines |-> lines1,
+         ctxs |-> Append(ctxs, ctx1) \o [j \in 1..NCb(prog) |-> EmptyCtx],      \* the nested contexts follow the outer one
+         inputs |-> r.queue,
          exc |-> IF recorded \/ captureRaises THEN prog.mode ELSE "none",
          fbs |-> IF recorded THEN Append(fbs, [exec |-> n, mode |-> prog.mode]) ELSE fbs,
-         status |-> IF k = "base" \/ captureRaises THEN "raised" ELSE "returned",
+         status |-> IF k = "base" \/ captureRaises \/ brokenNest THEN "raised" ELSE "returned",
          share |-> share, used |-> r.used ]
 
 Proj == [pTrace |-> pTrace, pOut |-> pOut, pSleep |-> pSleep, pMods |-> pMods, patches |-> Len(patches), stdouts |-> Len(stdouts),
@@ -148,8 +159,8 @@ DoExec(prog, a) ==
     IN /\ pTrace' = x.pTrace /\ pOut' = x.pOut /\ pSleep' = x.pSleep /\ pMods' = x.pMods /\ patches' = x.patches
        /\ stdouts' = x.stdouts /\ raw' = x.raw /\ lines' = x.lines /\ ctxs' = x.ctxs /\ inputs' = x.inputs
        /\ exc' = x.exc /\ fbs' = x.fbs /\ status' = x.status
-       /\ written' = written \o g.w /\ shares' = Append(shares, g.w) /\ q' = g.queue
-       /\ consumed' = Append(consumed, g.used)
+       /\ written' = written \o g.w /\ shares' = Append(shares, g.w) \o [j \in 1..NCb(prog) |-> <<>>] /\ q' = g.queue
+       /\ consumed' = Append(consumed, g.used) \o [j \in 1..NCb(prog) |-> <<>>]
        /\ defined' = (defined \/ (a.op = "run" /\ prog.mode \notin {"syntax", "nul"}))
        /\ UNCHANGED <<file, clearedAt>> /\ Step(a)
 
@@ -185,7 +196,8 @@ FnProgs == [effs : SeqsUpTo(EffTokens, MaxEff), mode : FnModes]
 \* patching needs ("time" for time.sleep, "sys" for sys.stdout) must still be reachable for pedal itself
 Files == {f \in [top : TopProgs, fns : SeqsUpTo(FnProgs, MaxFns), tracer : TracerStyles, threaded : Threadeds,
                  blocked : Blockeds] :
-            f.threaded => (f.top.mode # "recursion" /\ \A i \in 1..Len(f.fns) : f.fns[i].mode # "recursion")}
+            f.threaded => (/\ f.top.mode # "recursion" /\ \A i \in 1..Len(f.fns) : f.fns[i].mode # "recursion"
+                           /\ NCb(f.top) = 0 /\ \A i \in 1..Len(f.fns) : NCb(f.fns[i]) = 0)}
 
 Init == /\ file \in Files
         /\ pOut = "real" /\ pSleep = "real" /\ pMods = "real" /\ pTrace = "orig" /\ patches = <<>> /\ stdouts = <<>>
@@ -203,16 +215,17 @@ Spec == Init /\ [][Next]_vars
 LastA == hist[Len(hist)].a
 WasExec == hist # <<>> /\ LastA.op \in {"run", "call", "evaluate", "run_in", "call_in"}
 LastProg == IF LastA.op \in {"run", "run_in"} THEN file.top ELSE file.fns[LastA.i]
+OuterIdx == Len(ctxs) - NCb(LastProg)      \* the context of the last entry-point execution (nested ones come after it)
 \* C05
 Restored == /\ pOut = "real" /\ pSleep = "real" /\ pMods = "real" /\ patches = <<>> /\ stdouts = <<>>
             /\ (file.tracer # "none" => pTrace = "orig")      \* "when tracing is enabled"
 \* C04
 Contained == WasExec /\ MustContain(LastProg.mode) =>
     /\ status = "returned" /\ exc = LastProg.mode
-    /\ Cardinality({k \in 1..Len(fbs) : fbs[k].exec = Len(ctxs)}) = 1
-    /\ \A k \in 1..Len(fbs) : fbs[k].exec = Len(ctxs) => fbs[k].mode = LastProg.mode
+    /\ Cardinality({k \in 1..Len(fbs) : fbs[k].exec = OuterIdx}) = 1
+    /\ \A k \in 1..Len(fbs) : fbs[k].exec = OuterIdx => fbs[k].mode = LastProg.mode
 NoSpuriousFb == WasExec /\ Kind(LastProg.mode) = "normal" =>
-    status = "returned" /\ exc = "none" /\ ~\E k \in 1..Len(fbs) : fbs[k].exec = Len(ctxs)
+    status = "returned" /\ exc = "none" /\ ~\E k \in 1..Len(fbs) : fbs[k].exec = OuterIdx
 \* C15
 RECURSIVE LinesFrom(_, _)
 LinesFrom(ss, i) == IF i > Len(ss) THEN <<>>
